@@ -220,6 +220,13 @@ def r05d(ck, fb):
                        'R05d', 'get_initial_state:term<-term', b.where(hs[0][0]), 'HardState.current_term is not the stored term')
             ck.require(t2.op_tainted(rv['ops'][rv['fields'].index('voted_for')]), 'R05d', 'get_initial_state:vote<-vote', b.where(hs[0][0]),
                        'HardState.voted_for is not the stored vote')
+    if b:
+        # once the saved index was read, what is reported is the saved hard state: the blank initial state is only for a missing answer
+        for s0 in b.calls(r'InitialState::new_initial$'):
+            under = [a for a in cfg.guard_atoms(b, s0.bb) if a[0] == 'variant' and a[2] == 'RaftIndexInfo']
+            ck.require(not under, 'R05d', 'get_initial_state:blank-state-only-without-index', s0.where(),
+                       'InitialState::new_initial (term 0, no vote) is returned although the saved index was read: a term / vote saved before the '
+                       'first log entry or membership is thrown away, in the same process and after a restart - the node can vote twice in one term')
     m = ck.main(FS + 'get_membership_config', 'R05d')
     if m:
         sd = util.sends(m, r'RaftIndexRequest$', 'LoadMember')
